@@ -72,7 +72,7 @@ macro_rules! from_number {
             }
         }
         kani::cover!(want.is_some() && n.is_f64(), "a float that converts to the integer type");
-        kani::cover!(want.is_none() && n.is_i64(), "an integer the type cannot represent");
+        kani::cover!(want.is_none(), "a number the type cannot represent");
     }};
 }
 
